@@ -80,7 +80,8 @@ def run_history(sh, case, driver='history'):
     """Execute a history on one object while the model follows; compare after every fit / recompute / load."""
     from bycycle import Bycycle
     from bycycle.burst import recompute_edges
-    sigs = [np.asarray(s) for s in case['sigs']]
+    # the user's arrays: the SAME objects are passed to every fit of the history (and may be edited in place)
+    sigs = [np.array(s, dtype=float, copy=True) for s in case['sigs']]
     fs, f_range = case['fs'], tuple(case['f_range'])
     settings = case['settings']
     ops = case['ops']
@@ -102,7 +103,9 @@ def run_history(sh, case, driver='history'):
         prev = kind
         if kind == 'fit':
             sig = sigs[op[1]]
-            _, eo = outcome(lambda: obj.fit(np.array(sig, copy=True), fs, f_range))
+            same_object = len(op) < 3 or op[2] != 'copy'
+            _, eo = outcome(lambda: obj.fit(sig if same_object else np.array(sig, copy=True), fs, f_range))
+            sh.note('fit:same_array_object' if same_object else 'fit:copy')
             fresh = Bycycle(**sh_.ctor_kwargs())
             _, ef = outcome(lambda: fresh.fit(np.array(sig, copy=True), fs, f_range))
             dff, en = outcome(lambda: sh_.functional(sig, fs, f_range))
@@ -156,6 +159,14 @@ def run_history(sh, case, driver='history'):
             if obj.df_features is not tab or obj.sig is not src:
                 vs.append({'mechanism': 'load-did-not-set', 'message': 'step %d load' % step})
                 break
+            sep = True
+        elif kind == 'edit_sig':
+            # in-place edit of the samples of an array the object may still reference
+            k = op[1]
+            if op[2] == 'negate':
+                sigs[k] *= -1.0
+            else:
+                sigs[k][:] = np.roll(sigs[k], 37)
             sep = True
         elif kind == 'edit_thr':
             key, val = op[1], op[2]
@@ -211,8 +222,10 @@ def gen_settings(rng, lo, method=None):
 
 def gen_op(rng, method, nsigs):
     r = rng.random()
+    if r < 0.34:
+        return ('fit', int(rng.integers(0, nsigs))) if rng.random() < 0.8 else ('fit', int(rng.integers(0, nsigs)), 'copy')
     if r < 0.38:
-        return ('fit', int(rng.integers(0, nsigs)))
+        return ('edit_sig', int(rng.integers(0, nsigs)), str(rng.choice(['negate', 'roll'])))
     if r < 0.50:
         return ('recompute', [None, 0.0, 0.05, 0.1, 0.2][int(rng.integers(0, 5))])
     if r < 0.58:
